@@ -367,21 +367,43 @@ async def _start_second_line(rr, sl):
     process and loop: its own device model, bus and traffic; optionally it is lost in the middle.
     Whatever happens on line B must leave line A alone - and the other way round."""
     world = rr.world
+    kind = rr.plan["driver"]
     busB = ScriptedBus(world, {})
-    devB = TridonicGW(world, busB, BusLine(), Latency(world, "nominal", ADVERSARIAL["tridonic"]))
-    devB.name = "tridonicB"
-    devB.fd_base = 1000
-    hidmod.os.second = devB
-    rr.devB = devB
-    drvB = hidmod.tridonic("/dev/dali/daliusb-lineB", reconnect_interval=0.05)
-    rr.driverB = drvB
+    latB = Latency(world, "nominal", ADVERSARIAL[kind])
     rr.lineB = []
-    drvB.connect()
-    try:
-        await asyncio.wait_for(drvB.connected.wait(), 30)
-    except Exception as e:                          # noqa: BLE001
-        rr.lineB.append(("connect", "raised", e))
-        return
+    if kind in ("tridonic", "hasseb"):
+        if kind == "tridonic":
+            devB = TridonicGW(world, busB, BusLine(), latB)
+        else:
+            devB = HassebGW(world, busB, BusLine(), latB)
+            devB.expects_answer = lambda bits, value: cmds.mk_cmd([bits, value, 0]).response is not None
+        devB.name = kind + "B"
+        devB.fd_base = 1000
+        hidmod.os.second = devB
+        rr.devB = devB
+        drvB = (hidmod.tridonic if kind == "tridonic" else hidmod.hasseb)("/dev/dali/daliusb-lineB", reconnect_interval=0.05)
+        rr.driverB = drvB
+        drvB.connect()
+        try:
+            await asyncio.wait_for(drvB.connected.wait(), 30)
+        except Exception as e:                          # noqa: BLE001
+            rr.lineB.append(("connect", "raised", e, None))
+            return
+    else:
+        devB = (LubaGW if kind == "luba" else SciGW)(world, busB, BusLine(), latB, chunking="whole")
+        devB.name = kind + "B"
+        sermod.serial_asyncio.second = devB
+        rr.devB = devB
+        drvB = (sermod.DriverLubaRs232("luba232:/dev/ttySIMB") if kind == "luba"
+                else sermod.DriverSCIRS232("scirs232:/dev/ttySIMB"))
+        rr.driverB = drvB
+        sl = dict(sl)
+        sl.pop("lose_at_us", None)          # (no loss model for the serial gateways)
+        try:
+            await asyncio.wait_for(drvB.connect(), 30)
+        except Exception as e:                          # noqa: BLE001
+            rr.lineB.append(("connect", "raised", e, None))
+            return
 
     async def traffic():
         await asyncio.sleep(sl.get("start_us", 0) / 1e6)
@@ -416,7 +438,7 @@ def judge_second_line(rr):
     devB = getattr(rr, "devB", None)
     if devB is None:
         return out
-    lostB = bool(devB.losses)
+    lostB = bool(getattr(devB, "losses", None))
     for unit, st, res, val in getattr(rr, "lineB", []):
         if st == "raised":
             if not (lostB and type(res).__name__ == "CommunicationError"):
@@ -535,7 +557,7 @@ def run(plan, hooks=None):
             rr.connect_error = e
             return
         rr.t_connected = world.loop.time()
-        if plan.get("second_line") and plan["driver"] == "tridonic":
+        if plan.get("second_line"):
             await _start_second_line(rr, plan["second_line"])
         if "connected" in hooks:
             hooks["connected"](rr)
